@@ -7,7 +7,9 @@ groups included, with `CREATE`, `TABLE`, `AS`) cannot hold for arbitrary renamin
 A name is harmless when it is `Blocked`: it contains a character whose upper-case image has a non-space character
 outside the letters of the three words — any digit, `_`, quote, back-tick, or letter other than a b c e l r s t.
 A text containing a blocked name never normalises to one of the three words, whatever surrounds it, so replacing one
-blocked name by another is invisible.  `admissibleNames_of_leaf`: keyword and whitespace leaves re-spelled up to
+blocked name by another is invisible.  The same holds for a name that, upper-cased, is a non-empty whitespace-free
+string that is not a contiguous piece of `CREATE`, `TABLE` or `AS` (`NameSafe`): only the 35 pieces of these words
+(`a`, `b`, `c`, `e`, `l`, `r`, `s`, `t`, `ab`, `as`, `at`, `tab`, `eat`, `rea`, …) are neither.  `admissibleNames_of_leaf`: keyword and whitespace leaves re-spelled up to
 contextual equivalence, identifier leaves re-spelled up to contextual equivalence *or* blocked-to-blocked.
 -/
 namespace Sql
@@ -112,6 +114,122 @@ theorem CtxBlocked.append_right {b : Text} (h : CtxBlocked b) (a : Text) : CtxBl
   have := h (l ++ a) r w hw
   simpa [List.append_assoc] using this
 
+/-! ### names that are not a piece of `CREATE`, `TABLE`, `AS` -/
+
+theorem prefix_append_sep {α : Type} [DecidableEq α] {u a b : List α} {c : α} (hc : c ∉ u)
+    (h : u <+: a ++ c :: b) : u <+: a := by
+  induction a generalizing u with
+  | nil =>
+    rcases List.prefix_cons_iff.1 h with rfl | ⟨t, rfl, _⟩
+    · exact List.nil_prefix
+    · exact absurd (by simp) hc
+  | cons x a ih =>
+    rcases List.prefix_cons_iff.1 h with rfl | ⟨t, rfl, ht⟩
+    · exact List.nil_prefix
+    · have := ih (u := t) (fun hm => hc (List.mem_cons_of_mem _ hm)) ht
+      exact List.prefix_cons_iff.2 (Or.inr ⟨t, rfl, this⟩)
+
+theorem infix_append_sep {α : Type} [DecidableEq α] {u a b : List α} {c : α} (hc : c ∉ u)
+    (h : u <:+: a ++ c :: b) : u <:+: a ∨ u <:+: b := by
+  induction a with
+  | nil =>
+    rcases List.infix_cons_iff.1 h with hp | hi
+    · rcases List.prefix_cons_iff.1 hp with rfl | ⟨t, rfl, _⟩
+      · exact Or.inl (List.nil_infix)
+      · exact absurd (by simp) hc
+    · exact Or.inr hi
+  | cons x a ih =>
+    rcases List.infix_cons_iff.1 h with hp | hi
+    · exact Or.inl (prefix_append_sep (a := x :: a) hc hp).isInfix
+    · rcases ih hi with h1 | h2
+      · exact Or.inl (List.infix_cons_iff.2 (Or.inr h1))
+      · exact Or.inr h2
+
+/-- a space-free piece of the text lies inside one of its words -/
+theorem splitAux_infix (sp : Cp → Bool) (u : Text) (hu : u ≠ []) (husp : ∀ c ∈ u, sp c = false) (s cur : Text)
+    (h : u <:+: cur ++ s) : ∃ word ∈ splitAux sp s cur, u <:+: word := by
+  induction s generalizing cur with
+  | nil =>
+    simp only [List.append_nil] at h
+    have : cur.isEmpty = false := by
+      cases cur with
+      | nil => exact absurd (List.infix_nil.1 h) hu
+      | cons _ _ => rfl
+    exact ⟨cur, by simp [splitAux, flushWord, this], h⟩
+  | cons c cs ih =>
+    by_cases hc : sp c = true
+    · simp only [splitAux, hc, if_true]
+      have hcu : c ∉ u := fun hm => by rw [husp c hm] at hc; cases hc
+      rcases infix_append_sep hcu h with h1 | h2
+      · have : cur.isEmpty = false := by
+          cases cur with
+          | nil => exact absurd (List.infix_nil.1 h1) hu
+          | cons _ _ => rfl
+        exact ⟨cur, by simp [flushWord, this], h1⟩
+      · obtain ⟨word, hw, hi⟩ := ih [] (by simpa using h2)
+        refine ⟨word, ?_, hi⟩
+        unfold flushWord
+        split
+        · exact hw
+        · exact List.mem_cons_of_mem _ hw
+    · simp only [splitAux, hc]
+      exact ih (cur ++ [c]) (by simpa [List.append_assoc] using h)
+
+/-- a join of two or more words contains the separator -/
+theorem intercalate_single {sep w : Text} {ws : List Text} (hsep : ∀ c ∈ sep, c ∉ w) (hs : sep ≠ [])
+    (h : sep.intercalate ws = w) (hw : w ≠ []) : ws = [w] := by
+  cases ws with
+  | nil =>
+    simp [List.intercalate] at h
+    exact absurd h.symm (by simpa using hw)
+  | cons a rest =>
+    cases rest with
+    | nil => simp [List.intercalate, List.intersperse] at h; rw [h]
+    | cons b rest' =>
+      exfalso
+      have e : sep.intercalate (a :: b :: rest') = a ++ sep ++ sep.intercalate (b :: rest') := by
+        simp [List.intercalate, List.intersperse]
+      cases sep with
+      | nil => exact hs rfl
+      | cons c sep' =>
+        have : c ∈ w := by rw [← h, e]; simp
+        exact hsep c (by simp) this
+
+/-- the name, upper-cased, is non-empty, has no whitespace, and is not a contiguous piece of `CREATE`, `TABLE` or `AS`
+(only the 35 pieces of these words — `a`, `t`, `ab`, `tab`, `eat`, … — fail the last test) -/
+def NameSafe (v : Text) : Prop :=
+  pyUpper v ≠ [] ∧ (∀ c ∈ pyUpper v, isSpace c = false) ∧ ∀ w ∈ skipWords, ¬ (pyUpper v <:+: w)
+
+theorem ctxBlocked_of_nameSafe {v : Text} (h : NameSafe v) : CtxBlocked v := by
+  obtain ⟨hne, hsp, hinf⟩ := h
+  intro l r w hw
+  cases hbeq : kwNorm (l ++ v ++ r) == w with
+  | false => rfl
+  | true =>
+    exfalso
+    have hk : kwNorm (l ++ v ++ r) = w := by simpa using hbeq
+    rw [kwNorm_eq_splitAux] at hk
+    have hwfacts : ∀ w ∈ skipWords, w ≠ [] ∧ (32 : Nat) ∉ w := by decide
+    have hsingle := intercalate_single (sep := [32]) (by
+      intro c hc; simp at hc; subst hc; exact (hwfacts w hw).2) (by simp) hk (hwfacts w hw).1
+    have hinfix : pyUpper v <:+: [] ++ pyUpper (l ++ v ++ r) := by
+      simp only [List.nil_append, pyUpper_append]
+      exact ⟨pyUpper l, pyUpper r, by simp⟩
+    obtain ⟨word, hword, hi⟩ := splitAux_infix isSpace (pyUpper v) hne hsp _ [] hinfix
+    rw [hsingle] at hword
+    simp at hword
+    subst hword
+    exact hinf _ hw hi
+
+/-- a name `group_functions` cannot confuse with its three words inside any text: it contains a blocking character, or
+it is not a contiguous piece of one of them -/
+def NameOk (v : Text) : Prop := Blocked v ∨ NameSafe v
+
+theorem ctxBlocked_of_nameOk {v : Text} (h : NameOk v) : CtxBlocked v := by
+  rcases h with h | h
+  · exact ctxBlocked_of_blocked h
+  · exact ctxBlocked_of_nameSafe h
+
 /-- interchangeable as far as `group_functions` can tell -/
 def SkipRel (a b : Text) : Prop := CtxEq kwNorm a b ∨ (CtxBlocked a ∧ CtxBlocked b)
 
@@ -143,7 +261,7 @@ end
 are re-spelled up to contextual equivalence or from a blocked value to a blocked value, other leaves are untouched -/
 theorem admissibleNames_of_leaf {f : TType → Text → Text}
     (hkw : ∀ tt v, TType.isIn tt T.Keyword = true → CtxEq kwNorm (f tt v) v)
-    (hfree : ∀ tt v, freeTT tt = true → CtxEq kwNorm (f tt v) v ∨ (Blocked (f tt v) ∧ Blocked v))
+    (hfree : ∀ tt v, freeTT tt = true → CtxEq kwNorm (f tt v) v ∨ (CtxBlocked (f tt v) ∧ CtxBlocked v))
     (hplain : ∀ tt v, TType.isIn tt T.Keyword = false → freeTT tt = false → f tt v = v) :
     AdmissibleNames kwNorm f := by
   have hleaf : ∀ tt v, SkipRel (f tt v) v := by
@@ -153,7 +271,7 @@ theorem admissibleNames_of_leaf {f : TType → Text → Text}
     · by_cases hf : freeTT tt = true
       · rcases hfree tt v hf with h | ⟨h1, h2⟩
         · exact Or.inl h
-        · exact Or.inr ⟨ctxBlocked_of_blocked h1, ctxBlocked_of_blocked h2⟩
+        · exact Or.inr ⟨h1, h2⟩
       · rw [hplain tt v (by simpa using hk) (by simpa using hf)]; exact SkipRel.refl _
   exact
     { kw := fun tt v hk => (hkw tt v hk).eq
@@ -174,9 +292,9 @@ def renameRespell (σ kwMap wsMap : Text → Text) (tt : TType) (v : Text) : Tex
   else if tt == T.Name || tt == T.StringSymbol then σ v
   else v
 
-/-- **renaming + keyword case + whitespace values**: admissible when every renamed name and its replacement are blocked -/
+/-- **renaming + keyword case + whitespace values**: admissible when every renamed name and its replacement are `NameOk` -/
 theorem admissible_renameRespell (σ kwMap wsMap : Text → Text)
-    (hσ : ∀ v, σ v = v ∨ (Blocked (σ v) ∧ Blocked v)) (hk : ∀ v, CtxEq kwNorm (kwMap v) v)
+    (hσ : ∀ v, σ v = v ∨ (NameOk (σ v) ∧ NameOk v)) (hk : ∀ v, CtxEq kwNorm (kwMap v) v)
     (hw : ∀ v, CtxEq kwNorm (wsMap v) v) : AdmissibleNames kwNorm (renameRespell σ kwMap wsMap) := by
   apply admissibleNames_of_leaf
   · intro tt v hkw; simp only [renameRespell, hkw, if_true]; exact hk v
@@ -189,7 +307,7 @@ theorem admissible_renameRespell (σ kwMap wsMap : Text → Text)
       · split
         · rcases hσ v with h | h
           · rw [h]; exact Or.inl (CtxEq.refl _ _)
-          · exact Or.inr h
+          · exact Or.inr ⟨ctxBlocked_of_nameOk h.1, ctxBlocked_of_nameOk h.2⟩
         · exact Or.inl (CtxEq.refl _ _)
   · intro tt v hkw hf
     simp only [freeTT, Bool.or_eq_false_iff] at hf
